@@ -18,11 +18,12 @@ element, the one-point rule of a vertex).  The grouping key of the real code is 
 is a parameter `key : Rule → Nat` (harness: the identity of the arrays an independent Basix call returns).
 
 Things the transcription keeps on purpose (they are what the code does):
-* the local variable `cell_type` of `_group_integrands_by_quadrature_rule` is shared by all integrals of
-  the group: the `vertex` branch overwrites it and the loop `for cell_type, … in rules.items()` rebinds it to
-  the last key of every integral's rules (`st` below);
-* the scheme string of a vertex integral (`dP`) is never looked at;
-* `tensor_factors` are not part of the grouping key: the first rule object of a group stays.
+* the cell type of the integration domain is ONE value for the whole group (`g.cell`); the `vertex` branch
+  derives a local entity type from it and the loop over `rules.items()` uses its own variable (repaired in
+  c4a6950: before, a shared local variable `cell_type` was overwritten by both);
+* a vertex integral (`dP`) never takes the `vertex` branch (605b08f) and its scheme string is never looked at;
+* `tensor_factors` are not part of the grouping key; when an integrand WITHOUT tensor factors joins a group whose
+  rule object has them, the key object is replaced by the new one (556c39a): `mergeStep`, `mergedRule`.
 
 Core Lean only.
 -/
@@ -420,40 +421,32 @@ def uniqueSubentity (st : Cell) (k : Nat) : Except SelError Cell :=
   | some [] => .error .subentityNotUnique
   | some (t :: ts) => if ts.all (· == t) then .ok t else .error .subentityNotUnique
 
-/-- the `vertex` branch; `st` is the CURRENT value of the shared variable `cell_type` -/
-def selectVertex (itype : IType) (st : Cell) : Except SelError (Cell × List Sel) :=
-  let st' : Except SelError Cell :=
-    if itype.isFacet then uniqueSubentity st 2
-    else if itype == .ridge then uniqueSubentity st 3
-    else .ok st
-  match st' with
+/-- the `vertex` branch (`scheme == "vertex" and integral_type != "vertex"`): the rule lives on the LOCAL
+`entity_type` derived from the group's cell type -/
+def selectVertex (itype : IType) (cell : Cell) : Except SelError (List Sel) :=
+  let ent : Except SelError Cell :=
+    if itype.isFacet then uniqueSubentity cell 2
+    else if itype == .ridge then uniqueSubentity cell 3
+    else .ok cell
+  match ent with
   | .error e => .error e
   | .ok c =>
     if (geometry c).length == 0 then .error .zeroVertices
-    else .ok (c, [⟨c, .vertexScheme c⟩])
+    else .ok [⟨c, .vertexScheme c⟩]
 
 /-- Sum factorisation is used for this integral -/
 def useTP (o : Options) (g : GroupIn) (it : IntegralIn) : Bool :=
   (o.sumFactorization && g.itype == .cell) && (it.elements.all (·.tpFactor) && it.coordTP)
 
-/-- the last key of `rules` (what the loop `for cell_type, … in rules.items()` leaves in `cell_type`) -/
-def lastCell (st : Cell) : List Sel → Cell
-  | [] => st
-  | [s] => s.cell
-  | _ :: s :: ss => lastCell st (s :: ss)
-
-/-- body of `for integral in integrals` for one integral: new value of `cell_type` and the rules -/
-def selectStep (o : Options) (g : GroupIn) (st : Cell) (it : IntegralIn) (a : Analysed) :
-    Except SelError (Cell × List Sel) :=
+/-- body of `for integral in integrals` for one integral: the dictionary `rules`.  Nothing is carried from
+one integral to the next. -/
+def selectStep (o : Options) (g : GroupIn) (it : IntegralIn) (a : Analysed) : Except SelError (List Sel) :=
   match a with
-  | .custom p w => .ok (st, [⟨st, .custom p w⟩])
+  | .custom p w => .ok [⟨g.cell, .custom p w⟩]
   | .std d s =>
     if s == "custom" then .error .customNoPoints
-    else if s == "vertex" then selectVertex g.itype st
-    else
-      match createRules g.itype g.cell g.facetTypes g.ridgeTypes d s g.argPolysets (useTP o g it) with
-      | .error e => .error e
-      | .ok rs => .ok (lastCell st rs, rs)
+    else if s == "vertex" && g.itype != .vertex then selectVertex g.itype g.cell
+    else createRules g.itype g.cell g.facetTypes g.ridgeTypes d s g.argPolysets (useTP o g it)
 
 /-- rules of one integral -/
 structure IntegralOut where
@@ -461,15 +454,14 @@ structure IntegralOut where
   sels : List Sel
   deriving DecidableEq, Repr, Inhabited
 
-/-- the loop over the integrals with the shared variable `cell_type` threaded through -/
-def selectSeq (o : Options) (g : GroupIn) : Cell → List (IntegralIn × Analysed) →
-    Except SelError (List IntegralOut)
-  | _, [] => .ok []
-  | st, (it, a) :: rest =>
-    match selectStep o g st it a with
+/-- the loop over the integrals (first exception wins) -/
+def selectSeq (o : Options) (g : GroupIn) : List (IntegralIn × Analysed) → Except SelError (List IntegralOut)
+  | [] => .ok []
+  | (it, a) :: rest =>
+    match selectStep o g it a with
     | .error e => .error e
-    | .ok (st', sels) =>
-      match selectSeq o g st' rest with
+    | .ok sels =>
+      match selectSeq o g rest with
       | .error e => .error e
       | .ok outs => .ok (⟨it.tag, sels⟩ :: outs)
 
@@ -477,7 +469,7 @@ def selectSeq (o : Options) (g : GroupIn) : Cell → List (IntegralIn × Analyse
 def selectGroup (o : Options) (g : GroupIn) : Except SelError (List IntegralOut) :=
   match analyzeAll g.itype g.integrals with
   | .error e => .error e
-  | .ok as => selectSeq o g g.cell (g.integrals.zip as)
+  | .ok as => selectSeq o g (g.integrals.zip as)
 
 /-! ## Grouping -/
 
@@ -494,18 +486,37 @@ order; members in insertion order -/
 def groupRules (key : Rule → Nat) (outs : List IntegralOut) : List (Cell × List (Nat × List Member)) :=
   (Quad.groupBy (entries key outs)).map (fun cg => (cg.1, Quad.groupBy cg.2))
 
-/-- one summed integral of `sorted_integrals`: the rule OBJECT that is the dictionary key (the first one
-inserted) and the tags of the integrands that are summed -/
+/-- `QuadratureRule.has_tensor_factors` -/
+def Rule.hasTensor : Rule → Bool
+  | .tensor _ _ _ _ => true
+  | _ => false
+
+/-- which rule OBJECT is the dictionary key after one more integrand with rule `r` joined the entry whose key
+object is `cur` (`none`: the entry is new):
+`if rule not in group: group[rule] = []  elif not rule.has_tensor_factors and merged.has_tensor_factors: <key := rule>` -/
+def mergeStep (cur : Option Rule) (r : Rule) : Rule :=
+  match cur with
+  | none => r
+  | some m => if !r.hasTensor && m.hasTensor then r else m
+
+/-- the key object of an entry after all its members (in insertion order) joined -/
+def mergedRule (ms : List Member) : Option Rule :=
+  ms.foldl (fun cur m => some (mergeStep cur m.1)) none
+
+/-- one summed integral of `sorted_integrals`: the cell type, the array identity, the rule OBJECT that is the
+dictionary key in the end and the tags of the integrands that are summed -/
 structure Summed where
   cell : Cell
+  key : Nat
   rule : Option Rule
   tags : List Nat
   deriving DecidableEq, Repr, Inhabited
 
-/-- `sorted_integrals` / the keys of `IntegralIR.expression.integrand`, flattened in iteration order -/
+/-- `sorted_integrals` / the keys of `IntegralIR.expression.integrand`, flattened in iteration order (replacing
+a key object keeps the position of the entry) -/
 def summed (key : Rule → Nat) (outs : List IntegralOut) : List Summed :=
   (groupRules key outs).flatMap (fun cg =>
-    cg.2.map (fun kg => ⟨cg.1, (kg.2.head?).map (·.1), kg.2.map (·.2)⟩))
+    cg.2.map (fun kg => ⟨cg.1, kg.1, mergedRule kg.2, kg.2.map (·.2)⟩))
 
 /-! ## Whole form -/
 
